@@ -20,6 +20,7 @@ func main() {
 	commands["activation"] = cmdActivation
 	commands["addr"] = cmdAddr
 	commands["idl"] = cmdIdl
+	commands["gen"] = cmdGen
 	commands["acthelper"] = cmdActHelper
 	if len(os.Args) < 2 {
 		fmt.Fprintln(os.Stderr, "usage: vdriver <command> [flags]")
